@@ -713,18 +713,16 @@ theorem construct_none {V : Type} (cv : Conv V) (numId : Nat) (rules : List (Rul
         · rename_i hlen
           split at h
           · cases h
-          · split at h
+          · rename_i attrs ha
+            split at h
+            · rename_i hc
+              simp only [Bool.and_eq_true, decide_eq_true_eq] at hc
+              obtain ⟨hn, hk⟩ := hc
+              refine ⟨hn, srcs, hs, Or.inr ⟨attrs, ha, by omega, ?_⟩⟩
+              unfold keyIsNone at hk
+              rw [List.all_eq_true] at hk
+              exact hk
             · cases h
-            · rename_i attrs ha
-              split at h
-              · rename_i hc
-                simp only [Bool.and_eq_true, decide_eq_true_eq] at hc
-                obtain ⟨hn, hk⟩ := hc
-                refine ⟨hn, srcs, hs, Or.inr ⟨attrs, ha, by omega, ?_⟩⟩
-                unfold keyIsNone at hk
-                rw [List.all_eq_true] at hk
-                exact hk
-              · cases h
 
 theorem srcOf_cell (row : Row) (sl : Slot) (c : Cell) (h : srcOf row sl = .ok (.cell c)) :
     ∃ j, sl = .at j ∧ row[j]? = some c := by
